@@ -332,8 +332,30 @@ fn all_classes(_: &str) -> bool {
     true
 }
 
+/// The reference interpreter covers everything but NegativeInteger(n >= 0). With duplicate keys
+/// it still says which members are examined, which reports and calls are made (every delivered
+/// member is an entry of the payload); which occurrence ends up in the value is not specified
+/// by any property, so values are only compared without duplicates.
 pub fn model_applies(scn: &Scenario) -> bool {
-    !scn.has_dup && !scn.has_exotic
+    !scn.has_exotic
+}
+
+fn m_value_nodup(c: &Checker, exp: &Expect, r: &Run, out: &mut Vec<Violation>) {
+    if !c.scn.has_dup {
+        rules::m_value("M-value", exp, r, out);
+    } else {
+        match (&exp.value, &r.outcome) {
+            (Some(_), Outcome::Ok(_)) | (None, Outcome::Err { .. }) => {}
+            (e, o) => out.push(Violation {
+                rule: "M-value",
+                msg: format!(
+                    "the reference interpreter expects {} but the call ended with {}",
+                    if e.is_some() { "success" } else { "failure" },
+                    o.render()
+                ),
+            }),
+        }
+    }
 }
 
 pub fn check(prop: Prop, env: &Env, scn: &Scenario, stats: &mut Stats) -> Vec<Found> {
@@ -497,7 +519,7 @@ fn c04(c: &mut Checker) {
     let base = c.exec(&base_cfg, &has_report);
     let mut out = vec![];
     rules::h_loc(&base, &doc, &mut out);
-    if model_applies(c.scn) && !matches!(base.outcome, Outcome::Panic(_)) {
+    if model_applies(c.scn) && !c.scn.has_dup && !matches!(base.outcome, Outcome::Panic(_)) {
         let exp = c.model(&doc);
         c.stats.bump("handover_positions_checked", exp.handovers.len() as u64);
         rules::m_handover("M-handover", &exp, &base, &mut out);
@@ -521,7 +543,7 @@ fn c04(c: &mut Checker) {
             _ => None,
         })
         .collect();
-    let check_handover_locs = model_applies(c.scn) && !matches!(base.outcome, Outcome::Panic(_));
+    let check_handover_locs = model_applies(c.scn) && !c.scn.has_dup && !matches!(base.outcome, Outcome::Panic(_));
     for s in scripts {
         let cfg = c.cfg(s);
         let r = c.exec(&cfg, &has_report);
@@ -659,7 +681,7 @@ fn c06(c: &mut Checker) {
     for source in [Source::Sim, Source::Json] {
         if let Some((cfg, r, exp)) = model_run(c, source, &|_| true) {
             let mut out = vec![];
-            rules::m_value("M-value", &exp, &r, &mut out);
+            m_value_nodup(c, &exp, &r, &mut out);
             rules::m_reports("M-reports", &exp, &r, Strict::Full, &all_classes, &mut out);
             // "is reported naming that key and makes the call fail": what the container
             // reported must also be in the error it returns
@@ -672,7 +694,7 @@ fn c06(c: &mut Checker) {
 fn c07(c: &mut Checker) {
     if let Some((cfg, r, exp)) = model_run(c, Source::Sim, &|_| true) {
         let mut out = vec![];
-        rules::m_value("M-value", &exp, &r, &mut out);
+        m_value_nodup(c, &exp, &r, &mut out);
         // which keys were found / missing / unknown, not the payload details other properties own
         rules::m_reports(
             "M-reports",
@@ -682,6 +704,9 @@ fn c07(c: &mut Checker) {
             &|cl| matches!(cl, "MissingField" | "UnknownKey" | "UnknownValue" | "Any"),
             &mut out,
         );
+        // every delivered entry whose key is a field's effective key is read (and no other)
+        rules::m_visits("M-visits", &exp, &r, &mut out);
+        out.extend(conservation_rules(&r));
         c.record(out, &cfg, &r);
     }
     // both remove disciplines: renaming must not depend on where the tag sits
@@ -692,7 +717,7 @@ fn c07(c: &mut Checker) {
         let r = c.exec(&cfg, &|_| true);
         if !matches!(r.outcome, Outcome::Panic(_)) {
             let mut out = vec![];
-            rules::m_value("M-value", &exp, &r, &mut out);
+            m_value_nodup(c, &exp, &r, &mut out);
             c.record(out, &cfg, &r);
         }
     }
@@ -710,9 +735,11 @@ fn c08(c: &mut Checker) {
                 &|cl| matches!(cl, "MissingField" | "Unexpected"),
                 &mut out,
             );
-            rules::m_value("M-value", &exp, &r, &mut out);
+            m_value_nodup(c, &exp, &r, &mut out);
             rules::m_visits("M-visits", &exp, &r, &mut out);
-            rules::m_calls("M-calls", &exp, &r, false, &|s| matches!(s, CallStage::Missing | CallStage::Map), &mut out);
+            rules::m_calls_opt("M-calls", &exp, &r, false, c.scn.has_dup, &|s| matches!(s, CallStage::Missing | CallStage::Map), &mut out);
+            // "is reported missing": the report must reach the caller
+            out.extend(conservation_rules(&r));
             let n_missing = exp.reports.iter().filter(|e| matches!(e.class, simcore::model::ExpClass::Missing { .. })).count();
             c.stats.bump("expected_missing_field_reports", n_missing as u64);
             if n_missing > 0 && exp.reports.len() > n_missing {
@@ -731,7 +758,7 @@ fn c09(c: &mut Checker) {
     if let Some((cfg, r, exp)) = model_run(c, Source::Sim, &|_| true) {
         let mut out = vec![];
         rules::m_reports("M-reports", &exp, &r, Strict::Full, &|cl| cl == "UnknownKey", &mut out);
-        rules::m_calls("M-calls", &exp, &r, false, &|s| s == CallStage::Unknown, &mut out);
+        rules::m_calls_opt("M-calls", &exp, &r, false, c.scn.has_dup, &|s| s == CallStage::Unknown, &mut out);
         // "is reported": the report must also be in the error the call returns
         out.extend(conservation_rules(&r));
         let n = exp.reports.iter().filter(|e| matches!(e.class, simcore::model::ExpClass::UnknownKey { .. })).count();
@@ -759,7 +786,7 @@ fn c09(c: &mut Checker) {
                     msg: format!("reports change when members that no field reads are removed: with them {reps:?}, without them {reps_s:?}"),
                 });
             }
-            if !denied && val != val_s {
+            if !denied && !c.scn.has_dup && val != val_s {
                 out.push(Violation {
                     rule: "X-spurious",
                     msg: format!("value changes when members that no field reads are removed: with them {val:?}, without them {val_s:?}"),
@@ -785,8 +812,9 @@ fn c10(c: &mut Checker) {
             return;
         }
         let mut out = vec![];
-        rules::m_value("M-value", &exp, &r, &mut out);
+        m_value_nodup(c, &exp, &r, &mut out);
         rules::m_reports("M-reports", &exp, &r, Strict::Full, &all_classes, &mut out);
+        out.extend(conservation_rules(&r));
         if exp.reports.iter().any(|e| matches!(e.class, simcore::model::ExpClass::Any)) {
             c.stats.bump("probe_unknown_tag_value", 1);
         }
@@ -809,11 +837,11 @@ fn c11(c: &mut Checker) {
         return;
     }
     let mut out = vec![];
-    rules::m_calls("M-calls", &exp, &base, false, &|_| true, &mut out);
-    rules::m_value("M-value", &exp, &base, &mut out);
+    rules::m_calls_opt("M-calls", &exp, &base, false, c.scn.has_dup, &|_| true, &mut out);
+    m_value_nodup(c, &exp, &base, &mut out);
     rules::m_reports("M-reports", &exp, &base, Strict::Full, &|cl| cl == "Foreign", &mut out);
     rules::h_cb_fail(&base, &mut out);
-    rules::h_linear(&base, &mut out);
+    out.extend(conservation_rules(&base));
     c.record(out, &base_cfg, &base);
     if !c.found.is_empty() {
         return;
@@ -830,7 +858,7 @@ fn c11(c: &mut Checker) {
             continue;
         }
         let mut out = vec![];
-        rules::m_calls("H-calls", &exp, &r, true, &|_| true, &mut out);
+        rules::m_calls_opt("H-calls", &exp, &r, true, c.scn.has_dup, &|_| true, &mut out);
         rules::h_cb_fail(&r, &mut out);
         rules::h_linear(&r, &mut out);
         // a field-level error value must be handed over, never dropped
@@ -915,7 +943,7 @@ fn apply_order(doc: &Doc, idx: &mut u64) -> Doc {
 }
 
 fn c15(c: &mut Checker) {
-    if !model_applies(c.scn) {
+    if !model_applies(c.scn) || c.scn.has_dup {
         return;
     }
     let cfg0 = c.cfg(Script::AllC);
@@ -1001,6 +1029,7 @@ pub fn profile(prop: Prop, env: &Env) -> Profile {
     };
     match prop {
         Prop::C01 | Prop::C12 => {
+            allowed.collide = true;
             allowed.dup = true;
             allowed.exotic = true;
             allowed.nonfinite = true;
@@ -1008,6 +1037,7 @@ pub fn profile(prop: Prop, env: &Env) -> Profile {
             p.allow_special = true;
         }
         Prop::C03 => {
+            allowed.collide = true;
             allowed.dup = true;
             allowed.exotic = true;
             allowed.nonfinite = true;
@@ -1017,10 +1047,12 @@ pub fn profile(prop: Prop, env: &Env) -> Profile {
             allowed.exotic = true;
             allowed.nonfinite = true;
             p.allowed = allowed;
-            p.programs = pick(&|f| !f.tag_clash);
+            p.programs = pick(&|f| !f.tag_clash && !f.key_clash);
         }
         Prop::C02 => {
             allowed.nonfinite = true;
+            allowed.collide = true;
+            allowed.dup = true;
             p.allowed = allowed;
         }
         Prop::C06 => {
@@ -1034,8 +1066,9 @@ pub fn profile(prop: Prop, env: &Env) -> Profile {
             p.programs = pick(&|f| f.strukt || f.tagged || f.unit_enum);
             let mut a = FaultCfg::none();
             a.spurious = true;
-            p.allowed = a.clone();
-            p.forced = a;
+            p.forced = a.clone();
+            a.dup = true;
+            p.allowed = a;
             p.rates_pm = vec![0, 200, 500, 900];
             p.max_leaf_faults = 0;
             p.max_cb_faults = 0;
@@ -1046,6 +1079,8 @@ pub fn profile(prop: Prop, env: &Env) -> Profile {
             a.drop = true;
             a.null = true;
             a.corrupt = true;
+            a.dup = true;
+            a.collide = true;
             p.allowed = a;
             p.rates_pm = vec![0, 60, 150, 300];
             p.max_cb_faults = 0;
@@ -1055,6 +1090,7 @@ pub fn profile(prop: Prop, env: &Env) -> Profile {
             let mut a = FaultCfg::none();
             a.spurious = true;
             a.drop = true;
+            a.dup = true;
             p.allowed = a;
             let mut f = FaultCfg::none();
             f.spurious = true;
@@ -1069,6 +1105,7 @@ pub fn profile(prop: Prop, env: &Env) -> Profile {
             a.tag = true;
             a.spurious = true;
             a.drop = true;
+            a.dup = true;
             p.allowed = a;
             let mut f = FaultCfg::none();
             f.tag = true;
@@ -1078,6 +1115,9 @@ pub fn profile(prop: Prop, env: &Env) -> Profile {
             p.max_cb_faults = 0;
         }
         Prop::C11 => {
+            allowed.dup = true;
+            allowed.collide = true;
+            p.allowed = allowed;
             p.programs = pick(&|f| f.conv || f.validate || f.map_fn || f.error_b);
             p.rates_pm = vec![0, 0, 30, 80];
             p.max_cb_faults = 2;
